@@ -518,6 +518,10 @@ func (e *env) faultHistory(pub int, history []string) {
 			if key != "" {
 				opk := strings.Fields(op)[0]
 				h.FailWith("C12:"+key+"-"+opk+"-"+x.mode+"-"+kind, desc, replay)
+				if key == "store-unopenable" || key == "acknowledged-but-lost" || key == "error-but-store-changed" {
+					// C02: what the reopened store presents is what was acknowledged - also when a storage error got in the way
+					h.FailWith("C02:reopened-wallet-differs-after-storage-error-"+opk, desc, replay)
+				}
 			}
 			// an operation that reported an error left no trace: asked again (no fault this time) it does what it would
 			// have done the first time - same result, same wallet after a restart (C12); in particular the next key
@@ -667,6 +671,18 @@ func runFaults(e *env) {
 			{"new p1w s0 -", "next 0 0 2", "genpub -", "next 0 1 1", "unlock p1w", "genpub -", "next 0 0 1", "next 0 1 2"},
 			// (with two keystores the owner of a plot key is Go's map order, which replicas do not share: address requests only)
 			{"new p1w s0 -", "new p1w s1 78", "next 0 0 1", "next 1 0 2", "next 1 1 1"},
+		}
+	}
+	if e.focus == "C02" {
+		// C02 runs the passphrase changes and what surrounds them: the reopened wallet presents what was acknowledged
+		fixed = [][]string{
+			{"new p1w s0 -", "new p1w s1 78", "chpub p0w p3w", "next 0 0 1", "chpub p3w p0w", "remark 1 72656e616d6564"},
+		}
+	}
+	if e.focus == "C06" {
+		// C06 runs key issuance on one keystore: after a request that failed on a fault the ordinals go on without a gap
+		fixed = [][]string{
+			{"new p1w s0 -", "genpub -", "next 0 0 1", "unlock p1w", "genpub -", "next 0 0 2", "genpub -"},
 		}
 	}
 	if e.focus == "C03" {
